@@ -509,7 +509,67 @@ func c03Generated(c *Ctx) {
 	}
 }
 
+// recursive message types, entered through a value, a pointer, a slice and a map (the codec of a type is looked up
+// while it is still being built)
+type recNodeP struct {
+	V    int32
+	Kids []*recNodeP
+	M    map[string]*recNodeP
+	Next *recNodeP
+}
+type recOuterP struct {
+	A int32
+	N *recNodeP
+}
+type recOuterV struct {
+	N recNodeP
+	Z string
+}
+type recOuterL struct{ L []*recNodeP }
+type recOuterM struct{ M map[int32]*recNodeP }
+
+func c03Recursive(c *Ctx) {
+	leaf := func(v int32) *recNodeP { return &recNodeP{V: v} }
+	tree := &recNodeP{V: 1, Kids: []*recNodeP{leaf(2), {V: 3, Kids: []*recNodeP{leaf(4)}, M: map[string]*recNodeP{"k": leaf(5)}}}, Next: &recNodeP{V: 6, Next: leaf(0)}}
+	vals := []any{recOuterP{A: 1, N: tree}, &recOuterP{N: tree}, recOuterV{N: *tree, Z: "z"}, recOuterL{L: []*recNodeP{tree, leaf(7)}}, recOuterM{M: map[int32]*recNodeP{1: tree}}, *tree, tree,
+		recOuterP{N: &recNodeP{Kids: []*recNodeP{{}}}}}
+	for i, v := range vals {
+		k := protoCase{What: fmt.Sprintf("recursive types %d", i)}
+		fail := func(api, w, g string) { c.Diverge("C03", api+"(recursive message types)", w, g, "", k) }
+		var b []byte
+		var err error
+		size := -1
+		c.Eval(1)
+		c.Case()
+		if p := protect(func() { b, err = proto.Marshal(v); size = proto.Size(v) }); p != "" || err != nil {
+			fail("proto.Marshal", "nil error", fmt.Sprintf("%v %s", err, p))
+			continue
+		}
+		if size != len(b) {
+			fail("proto.Size", fmt.Sprintf("len(Marshal)=%d", len(b)), fmt.Sprint(size))
+		}
+		t := reflect.TypeOf(v)
+		if t.Kind() == reflect.Pointer {
+			t = t.Elem()
+		}
+		out := reflect.New(t)
+		if p := protect(func() { err = proto.Unmarshal(b, out.Interface()) }); p != "" || err != nil {
+			fail("proto.Unmarshal(Marshal(v))", "nil error", fmt.Sprintf("%v %s bytes=%x", err, p, b))
+			continue
+		}
+		w, _ := stdjson.Marshal(v)
+		g, _ := stdjson.Marshal(out.Interface())
+		norm := func(s []byte) string {
+			return strings.NewReplacer(":null", ":Z", ":[]", ":Z", ":{}", ":Z").Replace(string(s))
+		}
+		if norm(w) != norm(g) {
+			fail("proto.Unmarshal(Marshal(v))", string(w), string(g)+fmt.Sprintf(" bytes=%x", b))
+		}
+	}
+}
+
 func c03CompositeMaps(c *Ctx) {
+	c03Recursive(c)
 	c03Generated(c)
 	keys := [][]any{
 		{cmPoint{}, cmPoint{1, "a"}, cmPoint{0, "b"}},
@@ -617,7 +677,7 @@ func cmEqual(a, b reflect.Value) bool {
 func c03Replay(c *Ctx, raw stdjson.RawMessage) {
 	var k protoCase
 	if stdjson.Unmarshal(raw, &k) == nil {
-		if strings.HasPrefix(k.What, "composite map") || strings.HasPrefix(k.What, "generated-code types") {
+		if strings.HasPrefix(k.What, "composite map") || strings.HasPrefix(k.What, "generated-code types") || strings.HasPrefix(k.What, "recursive types") {
 			c03CompositeMaps(c)
 			return
 		}
